@@ -104,6 +104,53 @@ def globals_fingerprint():
     return out
 
 
+_hidden_sites = None
+
+
+def hidden_state_fingerprint():
+    """
+    Sizes of every module-level and class-level mutable container (dict / list / set) and of every functools cache in the
+    package: process-level state that is NOT an instance attribute, a default argument or configuration.  A read that changes
+    it (a memo being filled) is not a violation by itself, but the reference worker that served it retires afterwards, so that
+    such state never accumulates on the reference side the way it may on the timeline.
+    """
+    global _hidden_sites
+    if _hidden_sites is None:
+        sites = []
+        for mname in sorted(sys.modules):
+            if not (mname == "autoarray" or mname.startswith("autoarray.")):
+                continue
+            mod = sys.modules[mname]
+            if mod is None:
+                continue
+            for name, val in sorted(vars(mod).items(), key=lambda kv: kv[0]):
+                if name.startswith("__"):
+                    continue
+                if isinstance(val, (dict, list, set)) or hasattr(val, "cache_info"):
+                    sites.append((f"{mname}.{name}", val))
+                elif inspect.isclass(val) and val.__module__ == mname:
+                    sites.append((f"{mname}.{name}.<class dict>", val))
+        _hidden_sites = sites
+    out = []
+    for label, val in _hidden_sites:
+        try:
+            if inspect.isclass(val):
+                for an, av in vars(val).items():
+                    if an.startswith("__"):
+                        continue
+                    if isinstance(av, (dict, list, set)):
+                        out.append((label + "." + an, len(av)))
+                    elif hasattr(av, "cache_info"):
+                        out.append((label + "." + an, av.cache_info().currsize))
+            elif hasattr(val, "cache_info"):
+                out.append((label, val.cache_info().currsize))
+            else:
+                out.append((label, len(val)))
+        except Exception:  # noqa: BLE001
+            continue
+    return out
+
+
 def diff_fingerprints(a, b):
     return sorted(k for k in set(a) | set(b) if a.get(k) != b.get(k))
 
